@@ -222,14 +222,14 @@ struct Case {
 };
 // counters are kept in an array and handed to the engine when the job ends
 enum Cn { NONTRIVIAL, CFG_OK, CFG_FAIL, CFG_OK_EV, CFG_FAIL_EV, CFG_DEPTH2, CFG_FAIL_EARLY, CFG_OPEN_END, CFG_ILL_FAIL, CFG_BEYOND, CFG_LINE, EV_SECT, EV_END, EV_OPT, EV_OPTDATA, EV_DATA,
-          GETC_END, GETC_EARLY, GETC_REPOLL, HANDLER_FAIL, NODE_REFUSES_ACCEPTED, NODE_FAIL0, NODE_FAIL1, NODE_FAIL2, NODE_OK0, NODE_OK1, NODE_OK2, NODE_NEW0, NODE_NEW1, NODE_NEW2, ODDQUOTE, LONG_OK, LONG_FAIL, ERR_EOF_OK, ERR_EOF_FAIL, NCN };
+          GETC_END, GETC_EARLY, GETC_REPOLL, HANDLER_FAIL, NODE_REFUSES_ACCEPTED, NODE_FAIL0, NODE_FAIL1, NODE_FAIL2, NODE_OK0, NODE_OK1, NODE_OK2, NODE_NEW0, NODE_NEW1, NODE_NEW2, ODDQUOTE, LONG_OK, LONG_FAIL, ERR_EOF_OK, ERR_EOF_FAIL, EX_OK, EX_FAIL, EX_OK_CFG_FAIL, NCN };
 static const char *CNAME[NCN] = { "nontrivial", "cfg:success", "cfg:failure", "cfg:success with events", "cfg:failure after events", "cfg:success, nesting depth>=2", "cfg:failure before end of input",
 	"cfg:success with sections left open at end of input (not flagged)", "cfg:ill-nested events before a reported failure (not flagged)", "cfg:value length exceeds saved characters (not flagged)", "cfg:line counter differs from consumed newlines (not flagged)",
 	"event:Section", "event:SectEnd", "event:Option", "event:Option|Data", "event:Data",
 	"getc:end of input reached", "getc:stopped before end of input", "getc:end of input polled once more by the following element call (not flagged)", "cfg:handler failure injected",
 	"node:storing fails although the parser accepted (not flagged)", "node:failure, empty-root", "node:failure, nested-root", "node:failure, flat-root", "node:success, empty-root", "node:success, nested-root", "node:success, flat-root",
 	"node:success with new elements, empty-root", "node:success with new elements, nested-root", "node:success with new elements, flat-root", "input:odd number of quote characters", "long:accepted", "long:refused",
-	"readerror:accepted (not flagged)", "readerror:refused" };
+	"readerror:accepted (not flagged)", "readerror:refused", "example:success", "example:failure", "example:length-linked path accepts what the text path refuses (not flagged)" };
 static uint64_t g_cn[NCN];
 static uint64_t g_ok_by_fmt[NFMT];
 
@@ -358,6 +358,80 @@ static int run_node(Run &r, const Case &c, int shape, int cfg_result, int *resul
 	return 0;
 }
 
+// E3: the element loop of examples/core/parse.c (what the shipped ctest cases run): the format's element parser
+// is called directly on a path with binary (length linked) separation; same oracles, nesting on the decoded elements
+static bool decode_binary(const mpt::path *p, std::vector<std::string> &el)
+{
+	el.clear();
+	if (!p->len) return true;
+	if (!p->base) return false;
+	const uint8_t *b = (const uint8_t *) p->base + p->off;
+	size_t pos = 0, n = p->first;
+	while (pos < p->len) {
+		if (pos + n + 2 > p->len) return false;
+		el.push_back(std::string((const char *) b + pos, n));
+		pos += n;
+		if (b[pos] != n) return false;       // backward link
+		n = b[pos + 1]; pos += 2;
+	}
+	return true;
+}
+static int run_example(Run &r, const Case &c, int cfg_result)
+{
+	mpt::parser_format pf;
+	mpt::input_parser_t next = mpt::mpt_parse_next_fcn(mpt::mpt_parse_format(&pf, FMT[c.fi].str));
+	Src src(c.in, c.n, c.eofcode);
+	mpt::parser_context ctx;
+	setup_ctx(ctx, src, c.ni);
+	ctx.prev = 0;
+	alignas(mpt::path) char mem[sizeof(mpt::path)];
+	memset(mem, 0, sizeof mem);
+	mpt::path *path = (mpt::path *) mem;
+	path->sep = '.'; path->flags = mpt::path::SepBinary;
+	ledger_housekeeping();
+	size_t lbase = ledger_live();
+	asan_error();
+	r.hint(c.sig("example_loop", "run").c_str());
+	++r.transitions;
+	std::vector<std::string> stack, el;
+	std::string kind, why, trace;
+	unsigned nev = 0; int type;
+	while ((type = LIB(next(&pf, &ctx, path))) > 0) {
+		++nev;
+		bool dec = decode_binary(path, el);
+		size_t used = (path->flags & mpt::path::HasArray) && path->base ? (((const mpt::buffer *) path->base) - 1)->_used : 0;
+		uint64_t sum = 0;
+		if (type & mpt::parser_context::Data) { const uint8_t *d = (const uint8_t *) path->base + path->off + path->len; for (size_t i = 0; i < ctx.valid; ++i) sum += d[i]; }   // example prints these bytes
+		if (r.replaying) { trace += fmt("  event %u: code=%d path=", nev, type); for (auto &e : el) trace += "/" + show((const uint8_t *) e.data(), e.size()); if (!dec) trace += " (undecodable)"; trace += "\n"; }
+		auto bad = [&](const char *k, const char *w) { if (kind.empty()) { kind = k; why = fmt("event %u (code %d): %s; depth %zu, reported path has %zu element(s)%s", nev, type, w, stack.size(), el.size(), dec ? "" : " and is not a consistent length-linked path"); } };
+		auto pre = [&](size_t n) { if (!dec || el.size() < n) return false; for (size_t i = 0; i < n; ++i) if (el[i] != stack[i]) return false; return true; };
+		switch (type) {
+		case mpt::parser_context::Section: if (el.size() != stack.size() + 1 || !pre(stack.size())) bad("section-path", "new section is not reported as a direct child of the open section"); else stack.push_back(el.back()); break;
+		case mpt::parser_context::SectEnd: if (stack.empty()) bad("sectend-without-open", "section end while no section is open"); else if (el.size() != stack.size() || !pre(stack.size())) bad("sectend-path", "section end does not name the innermost open section"); else stack.pop_back(); break;
+		case mpt::parser_context::Option: case mpt::parser_context::Option | mpt::parser_context::Data: if (el.size() != stack.size() + 1 || !pre(stack.size())) bad("option-path", "option is not reported inside the open section"); break;
+		case mpt::parser_context::Data: if (el.size() != stack.size() || !pre(stack.size())) bad("data-path", "anonymous value is not reported inside the open section"); break;
+		default: bad("unknown-event", "event code is none of Section/SectEnd/Option/Data");
+		}
+		if (type & mpt::parser_context::SectEnd) LIB(mpt::mpt_path_del(path)); else LIB(mpt::mpt_path_invalidate(path));
+		ctx.prev = ctx.curr; ctx.valid = 0;
+		if (nev > 4 * c.n + 16) break;
+	}
+	LIB((mpt::mpt_path_fini(path), 0));
+	bool asan = asan_error();
+	size_t live = ledger_live();
+	if (r.replaying) r.note("example loop (binary path) -> %d, getc calls %lu (%lu after end), consumed %zu of %zu, events:\n%s", type, src.calls, src.after, src.pos, src.n, trace.c_str());
+	auto d = [&]() { return c.desc() + fmt(": element loop of examples/core/parse.c (length-linked path) ended with %d after %u events", type, nev); };
+	if (asan) { r.violation(c.sig("example_loop", "asan"), d() + "; AddressSanitizer reported an invalid memory access"); return -1; }
+	if (type > 0) { r.violation(c.sig("example_loop", "no-progress"), d() + "; more events than input characters"); return -1; }
+	if (src.after > 1) { r.violation(c.sig("example_loop", "getc-after-end"), d() + fmt("; the source was asked %lu more times after it had reported end of input", src.after)); return -1; }
+	if (live != lbase) { r.violation(c.sig("example_loop", "leak"), d() + fmt("; %zu allocation(s) are still live after mpt_path_fini", live - lbase)); return -1; }
+	// the example ignores a failing mpt_path_del (section end at top level): only sequences without such a step are judged
+	if (type == 0 && !kind.empty() && kind != "sectend-without-open") { r.violation(c.sig("example_loop", ("nesting:" + kind).c_str()), d() + "; successful parse with an ill-nested event sequence: " + why); return -1; }
+	++g_cn[type == 0 ? EX_OK : EX_FAIL];
+	if (type == 0 && cfg_result < 0) ++g_cn[EX_OK_CFG_FAIL];
+	return 0;
+}
+
 static bool g_warm = false;
 static void warmup()
 {
@@ -389,6 +463,7 @@ static void run_case(Run &r, const Case &c, bool fail_first = false)
 	// the handler refuses the last event it is given (and, for seeds/mutations, the first)
 	if (!c.heavy && nev > 0 && run_config(r, c, nev, 0) < 0) return;
 	if (fail_first && nev > 1 && run_config(r, c, 1, 0) < 0) return;
+	if (run_example(r, c, ret) < 0) return;
 	if (run_node(r, c, 0, ret, &nret) < 0) return;
 	if (run_node(r, c, 1, ret, &nret) < 0) return;
 	if (nret < 0 && nev > 0) ++g_cn[NONTRIVIAL];
@@ -402,6 +477,8 @@ static void run_case(Run &r, const Case &c, bool fail_first = false)
 //   err:<fmt>:<flags>                                   all strings of length <= 3, the source ends with a read error (-1) instead of end of file (-2)
 //   long:<fmt>:<flags>                                  long-token shapes
 //   mut:<fmt>:<flags>                                   seed document with <= 2 token mutations
+//   pad:<fmt>:<flags>                                   a run of n = 1..N name characters (as first name, or as value behind "b=") followed by every string
+//                                                       of length <= 2: sweeps the fill level of the growing path buffer across its allocation steps
 static int maxlen(Tier t, int fi, int ni)
 {
 	if (t == Quick) return 4;
@@ -420,6 +497,7 @@ void mc_jobs(Tier t, std::vector<std::string> &jobs)
 	}
 	for (int fi = 0; fi < nfmt(t); ++fi) for (int ni = 0; ni < (t == Quick ? 2 : NFLG); ++ni) jobs.push_back(fmt("long:%d:%d", fi, ni));
 	for (int fi = 0; fi < NFMT; ++fi) for (int ni = 0; ni < nflg(t); ++ni) jobs.push_back(fmt("mut:%d:%d", fi, ni));
+	for (int fi = 0; fi < NFMT; ++fi) for (int ni = 0; ni < (t == Quick ? 1 : 3); ++ni) jobs.push_back(fmt("pad:%d:%d", fi, ni));
 }
 
 // ---- long tokens
@@ -542,7 +620,7 @@ static void body_mut(Run &r, Ctx &x, int fi, int ni, const std::vector<uint8_t> 
 	int muts = 0;
 	if (m1) {
 		mutate(T, m1 - 1, tok); ++muts;
-		if (!T.empty() && (r.tier == Thorough || m1 <= 3 * n0)) { size_t m2 = x.choose(1 + nmut(T.size(), tok.size(), r.tier == Thorough)); if (m2) { mutate(T, m2 - 1, tok); ++muts; } }
+		if (!T.empty() && (r.tier == Thorough || m1 <= 3 * n0)) { size_t m2 = x.choose(1 + nmut(T.size(), tok.size(), r.tier == Thorough && ni < 3)); if (m2) { mutate(T, m2 - 1, tok); ++muts; } }
 	}
 	int eofcode = m1 ? -2 : (x.choose(2) ? -1 : -2);
 	std::string doc; for (auto &s : T) doc += s;
@@ -557,6 +635,26 @@ static void body_mut(Run &r, Ctx &x, int fi, int ni, const std::vector<uint8_t> 
 	}
 	++g_mut[muts];
 	run_case(r, c, true);
+}
+
+static uint64_t g_pad;
+static void body_pad(Run &r, Ctx &x, int fi, int ni, const std::vector<uint8_t> &tok)
+{
+	mpt::parser_format f; mpt::mpt_parse_format(&f, FMT[fi].str);
+	// quick: only the fill levels around the first two allocation steps of the path buffer (64 and 192 bytes), thorough: every n up to 400
+	int variant = (int) x.choose(2);
+	size_t n = 1 + x.choose(r.tier == Quick ? 34 : 400);
+	if (r.tier == Quick) n = n <= 17 ? 55 + n : 183 + (n - 17);
+	std::string doc;
+	if (variant) { if (f.ostart) doc += (char) f.ostart; doc += "b"; doc += f.assign ? (char) f.assign : ' '; }
+	doc.append(n, 'a');
+	for (int k = 0; k < 2; ++k) { uint64_t c = x.choose(tok.size() + 1); if (!c) break; doc += (char) tok[c - 1]; }
+	uint8_t *in = (uint8_t *) malloc(doc.size()); memcpy(in, doc.data(), doc.size());
+	Case c = { fi, ni, in, doc.size(), n > 255 ? "long>255" : "plain", -2, false };
+	++g_pad;
+	if (n == 64 && doc.size() == 66 + (variant ? 2 : 0) && ni == 0 && doc[doc.size() - 1] == '\n') r.sample(fmt("pad: format %s input %s", FMT[fi].id, show(in, doc.size()).c_str()));
+	run_case(r, c);
+	free(in);
 }
 
 struct Job { std::string kind; int fi, ni, L, first; std::vector<uint8_t> tok; };
@@ -590,16 +688,17 @@ static void body(Run &r, Ctx &x, const Job &j)
 		free(in);
 	}
 	else if (j.kind == "long") body_long(r, x, j.fi, j.ni);
+	else if (j.kind == "pad") body_pad(r, x, j.fi, j.ni, j.tok);
 	else body_mut(r, x, j.fi, j.ni, j.tok);
 }
 static const char *required[] = {
 	"nontrivial", "cfg:success", "cfg:failure", "cfg:success with events", "cfg:failure after events", "cfg:success, nesting depth>=2", "cfg:failure before end of input",
 	"event:Section", "event:SectEnd", "event:Option", "event:Option|Data", "event:Data", "cfg:handler failure injected",
-	"getc:end of input reached", "getc:stopped before end of input", "readerror:refused",
+	"getc:end of input reached", "getc:stopped before end of input", "readerror:refused", "example:success", "example:failure",
 	"node:failure, empty-root", "node:failure, nested-root", "node:failure, flat-root", "node:success, nested-root", "node:success with new elements, nested-root", "node:success with new elements, flat-root",
 	"input:odd number of quote characters", "mut:seed document accepted", "mut:2 mutation(s)",
 	"long:section name ~256", "long:option name ~256", "long:value ~256", "long:quoted value ~65536", "long:section name ~65536", "long:option name ~65536", "long:value ~65536", "long:comment ~65536", "long:anonymous value ~65536",
-	"long:accepted", "long:refused",
+	"long:accepted", "long:refused", "pad:buffer fill sweep cases",
 	"cfg:success, family pre", "cfg:success, family sep", "cfg:success, family enc", "cfg:success, family opt" };
 static void flush_counters(Run &r)
 {
@@ -607,6 +706,7 @@ static void flush_counters(Run &r)
 	for (int i = 0; i < NFMT; ++i) if (g_ok_by_fmt[i]) { r.count(std::string("cfg:success, family ") + FMT[i].family, g_ok_by_fmt[i]); r.count(std::string("cfg:success, format ") + FMT[i].id, g_ok_by_fmt[i]); g_ok_by_fmt[i] = 0; }
 	for (int p = 0; p < NPOS; ++p) for (int k = 0; k < 2; ++k) if (g_long[p][k]) { r.count(std::string("long:") + POSN[p] + (k ? " ~65536" : " ~256"), g_long[p][k]); g_long[p][k] = 0; }
 	for (int k = 0; k < 3; ++k) if (g_mut[k]) { r.count(fmt("mut:%d mutation(s)", k), g_mut[k]); g_mut[k] = 0; }
+	if (g_pad) r.count("pad:buffer fill sweep cases", g_pad); g_pad = 0;
 	if (g_seed_ok) r.count("mut:seed document accepted", g_seed_ok); g_seed_ok = 0;
 	if (g_seed_refused) r.count("mut:seed document refused (not flagged)", g_seed_refused); g_seed_refused = 0;
 }
